@@ -39,6 +39,9 @@ def check(ctx, tier):
     report_raw_access_only_vc2(coh)
     viewrules.build_indices_rules(ctx, tk, "C02.f")
     routing(ctx, tk)
+    tk.purity("C02.p", [ctx.func(q) for q in ['raggedarray.indexablearray.IndexableArray.__getitem__', 'raggedarray.indexablearray.IndexableArray.get_column_values', 'raggedarray.indexablearray.IndexableArray.subset']], "the operation does not write into its operands' buffers", content_only=True)
+    from .. import hazards as _hz, scopes as _sc
+    _hz.generic(ctx, tk, "C02.z", _sc.scope(tk, "C02"))
     return {}
 
 
@@ -184,6 +187,24 @@ def routing(ctx, tk):
                 ix.append(None)
         ctx.decide("C02.g", f, what, True if ix == [0, 1] else (False if ix == [1, 0] else None),
                    "tuple elements %s are passed as (rows, cols)" % ix, node=c.node, engine="E4")
+    # Ellipsis entries are dropped only from tuples longer than two ((..., cols) means all rows, columns cols)
+    ip = f.params[1]
+    from ..guards import order_atoms, _feasible_reach, _Partial, ev
+    strip = []
+    for n in fa.cfg.stmts():
+        if n.kind == "stmt" and isinstance(n.ast, ast.Assign):
+            tm = fa.term(n.ast.value, n)
+            if any(x.k == "comp" and x.a[3] and any(y.k == "global" and y.a[0] == "Ellipsis" for c in x.a[3] for y in walk(c)) for x in walk(tm)):
+                strip.append(n)
+    if strip:
+        m_, cons_, (E_, G_, L_) = order_atoms("len", lambda t: t.k == "call" and call_name(t) == "len" and t.a[1] and t.a[1][0].k == "param" and t.a[1][0].a[0] == ip,
+                                             lambda t: is_const(t, 2))
+        forms_ = Formulas([m_])
+        tests_ = {n.id: forms_.of(fa.term(n.ast, n)) for n in fa.cfg.nodes if n.kind == "test" and fa.cfg.is_reachable(n)}
+        A = _Partial({E_: True, G_: False, L_: False})
+        bad = [n for n in strip if _feasible_reach(fa.cfg, fa.cfg.entry, n, tests_, A, ())]
+        ctx.decide("C02.g", f, "Ellipsis entries are stripped only from index tuples longer than two", not bad,
+                   "a 2-tuple such as (..., cols) reaches the Ellipsis filter: it is reduced to (cols,) and dispatched as a row selection", node=strip[0].ast, key="ellipsis", engine="E1")
     g = ctx.func(IA + "_get_row_col_subset")
     ga = ctx.fa(g)
     rows_p, cols_p = g.params[1], g.params[2]
